@@ -102,6 +102,7 @@ func (h *Handler) findOrCreate(clientID []byte, mac net.HardwareAddr, name strin
 			String("from", lease.subnet.LAN.String()).String("to", subnet.LAN.String()).Write()
 	}
 
+	replaced := lease != nil && lease.State == StateAllocated
 	lease = &Lease{}
 	lease.ClientID = packet.CopyBytes(clientID)
 	lease.State = StateFree
@@ -111,6 +112,9 @@ func (h *Handler) findOrCreate(clientID []byte, mac net.HardwareAddr, name strin
 	lease.subnet = subnet
 	lease.Name = name
 	h.table[string(lease.ClientID)] = lease
+	if replaced {
+		h.saveConfig(h.filename) // the allocated lease of the other subnet is gone: do not keep it in the lease file
+	}
 	if Logger.IsDebug() {
 		Logger.Msg("new lease allocated").Struct(lease).Write()
 	}
